@@ -49,7 +49,8 @@ def strategy(tier):
     return st.fixed_dictionaries(
         {
             "prune": st.booleans(),
-            "ops": histories(tier, batches=True, aborts=False),
+            "sparse": st.booleans(),
+            "ops": histories(tier, batches=True, aborts=False, looks=1, reroot=True),
             "meta": st.one_of(st.none(), meta),
         }
     )
